@@ -299,6 +299,10 @@ type world struct {
 
 	pendingResidue   string
 	pendingResDetail interface{}
+	pendingModelLoad string
+
+	qrng      *vlib.Rng // queries for unusual addresses (odd.go): the history does not depend on it
+	forceRace bool      // every build of the index gets a config change between two records (scenario cfgrace:)
 }
 
 func (w *world) logf(f string, a ...interface{}) {
@@ -329,6 +333,19 @@ func (w *world) propFail(key, what string, detail interface{}) {
 	}
 	w.failed = true
 }
+// softTie: a model/harness disagreement that is NOT about the index (UnspentDB itself differs from the harness's replay
+// of the active chain — C06's subject). The world ends, the finding is reported (once), but the search for a history in
+// which the INDEX differs from the projection of the real unspent set goes on.
+var softReported = map[string]bool{}
+
+func (w *world) softTie(key, what string, detail interface{}) {
+	if !w.failed && !softReported[key] {
+		softReported[key] = true
+		r.TieFail(key, what, w.replayDoc(detail))
+	}
+	w.failed = true
+}
+
 func (w *world) tieFail(key, what string, detail interface{}) {
 	if !w.failed {
 		r.TieFail(key, what, w.replayDoc(detail))
@@ -342,7 +359,7 @@ func newWorld(name string, seed uint64, min uint64, useMap uint32) *world {
 }
 
 func newWorldOpt(name string, seed uint64, min uint64, useMap uint32, compr bool) *world {
-	w := &world{name: name, seed: seed, rng: vlib.NewRng(seed), min: min, useMap: useMap, stopAt: -1, compr: compr}
+	w := &world{name: name, seed: seed, rng: vlib.NewRng(seed), min: min, useMap: useMap, stopAt: -1, compr: compr, qrng: vlib.NewRng(seed ^ 0x0dd)}
 	k, err := chainkit.New(chainkit.Opts{Testnet: true, ChainOpts: &chain.NewChanOpts{CompressUTXO: compr}}, w.rng.Fork())
 	if err != nil {
 		fmt.Fprintln(os.Stderr, "chainkit:", err)
@@ -612,7 +629,7 @@ func (w *world) checkAll(ctx string) {
 					propKey, propBad, propDetail = "getall-panic", "wallet.GetAllUnspent panicked for "+a.String()+": "+pan, nil
 					break
 				}
-				exp, tot := project(w.cur, a, w.min)
+				exp, tot := project(w.cur, a, common.AllBalMinVal())
 				rec := real[fmt.Sprintf("%d/%d", a.Idx, a.UIdx)]
 				var rtot uint64
 				if rec != nil {
@@ -629,12 +646,12 @@ func (w *world) checkAll(ctx string) {
 					r.Hit("addr:outputs>=usemapcnt-1")
 				}
 				if strings.Join(got, " ") != strings.Join(exp, " ") {
-					propKey, propBad = "getall-mismatch", fmt.Sprintf("GetAllUnspent(%s) differs from the projection of the unspent set (min=%d) after %s", a.String(), w.min, ctx)
+					propKey, propBad = "getall-mismatch", fmt.Sprintf("GetAllUnspent(%s) differs from the projection of the unspent set (min in force=%d) after %s", a.String(), common.AllBalMinVal(), ctx)
 					propDetail = map[string]interface{}{"addr": a.String(), "got": got, "projection": exp}
 					break
 				}
 				if rtot != tot {
-					propKey, propBad = "total-mismatch", fmt.Sprintf("balance record of %s has Value %d, the projection sums to %d (min=%d) after %s", a.String(), rtot, tot, w.min, ctx)
+					propKey, propBad = "total-mismatch", fmt.Sprintf("balance record of %s has Value %d, the projection sums to %d (min in force=%d) after %s", a.String(), rtot, tot, common.AllBalMinVal(), ctx)
 					propDetail = map[string]interface{}{"addr": a.String(), "got": got, "value": rtot, "sum": tot}
 					break
 				}
@@ -651,6 +668,12 @@ func (w *world) checkAll(ctx string) {
 					return
 				}
 				r.TieOK()
+			}
+			if propBad == "" {
+				propKey, propBad, propDetail = w.checkOdd(w.oddSample(stop))
+				if w.failed {
+					return
+				}
 			}
 			if propBad == "" {
 				for k := range real {
@@ -841,16 +864,16 @@ func (w *world) checkView() {
 				n++
 				c := v[btc.TxPrevOut{Hash: rr.TxID, Vout: uint32(j)}]
 				if c == nil || c.Value != ou.Value || !bytes.Equal(c.Script, ou.Script) {
-					w.tieFail("utxo-view", "UnspentDB differs from the harness's own replay of the active chain", nil)
+					w.softTie("utxo-view", "UnspentDB differs from the harness's own replay of the active chain", nil)
 					return
 				}
 			}
 		}
 	}
 	if n != len(v) {
-		w.tieFail("utxo-view", fmt.Sprintf("UnspentDB has %d outputs, the harness's replay of the active chain %d", n, len(v)), nil)
+		w.softTie("utxo-view", fmt.Sprintf("UnspentDB has %d outputs, the harness's replay of the active chain %d", n, len(v)), nil)
 	} else if c := fullCount(w.k.Ch.Unspent); c != len(w.cur) {
-		w.tieFail("utxo-view", fmt.Sprintf("UnspentDB holds %d records, %d of them known to the harness", c, len(w.cur)), nil)
+		w.softTie("utxo-view", fmt.Sprintf("UnspentDB holds %d records, %d of them known to the harness", c, len(w.cur)), nil)
 	}
 }
 
@@ -1227,9 +1250,11 @@ func runRandom(name string, seed uint64, nops int, stopAt int) *world {
 			w.opExtend()
 		case x < 58:
 			w.opDrain()
-		case x < 74:
+		case x < 72:
 			w.opReorg()
-		case x < 84:
+		case x < 78:
+			w.opRevisit(1+w.rng.Intn(3), false)
+		case x < 86:
 			w.opUndo()
 		default:
 			w.opToggle()
@@ -1237,6 +1262,9 @@ func runRandom(name string, seed uint64, nops int, stopAt int) *world {
 	}
 	if !w.on && !w.failed {
 		w.setOn(true, w.min, w.useMap)
+	}
+	if !w.failed {
+		w.oddFull()
 	}
 	return w
 }
@@ -1548,6 +1576,18 @@ func runNamed(name string, seed uint64, stopAt int) {
 		var c int
 		fmt.Sscanf(name, "static:min=%d,usemap=%d,compr=%d", &mn, &um, &c)
 		runStatic(name, seed, mn, um, c == 1, stopAt)
+	case strings.HasPrefix(name, "revisit:"):
+		var mn uint64
+		var um uint32
+		var c int
+		fmt.Sscanf(name, "revisit:min=%d,usemap=%d,compr=%d", &mn, &um, &c)
+		runRevisit(name, seed, mn, um, c == 1, stopAt)
+	case strings.HasPrefix(name, "cfgrace:"):
+		var mn uint64
+		var um uint32
+		var c int
+		fmt.Sscanf(name, "cfgrace:min=%d,usemap=%d,compr=%d", &mn, &um, &c)
+		runCfgRace(name, seed, mn, um, c == 1, stopAt)
 	case strings.HasPrefix(name, "random:"):
 		var nops int
 		fmt.Sscanf(name, "random:ops=%d", &nops)
@@ -1614,9 +1654,11 @@ func main() {
 		os.Exit(3)
 	}
 	defer o.Close()
+	prepareCfg()
 	r.Assume = []string{
 		"scripts of the generated blocks are not executed (blocks are marked trusted after the full CheckBlock, like the client's -trust flag): the property is about the index, not about script validity",
-		"addresses = the five forms the index supports (P2PKH, P2SH, P2WPKH, P2WSH, P2TR); other witness versions have an address but no index by design",
+		"addresses = the five forms the index supports (P2PKH, P2SH, P2WPKH, P2WSH, P2TR) for the full predicate (list = projection); every other address value GetAllUnspent accepts (witness versions 0..16 x program lengths 2..40, base58 versions of other networks) is queried too and must only ever be shown outputs paying to its own script (other witness versions have an address but no index by design)",
+		"config changes during a running index build are made synchronously from the load's tick callback, in a goroutine of their own (LockCfg; CFG.AllBalances = ...; Reset(); UnlockCfg as the WebUI does); free-running races between goroutines are not explored",
 		"no two addresses in play collide under SipHash-2-4(0,0) and no two live transactions share their first 8 txid bytes (hypotheses hinj / Admissible of theorem balances_eq_projection; 64-bit collisions are not generated)",
 		"the index's disk cache (wallet/disk.go): encoding modelled (Model.BalancesDisk) and compared with the files SaveBalances writes; folder naming and LAST_SAVED_FNAME logic are exercised on the real code only",
 		"the scan order of Unspent.HashMap during LoadBalancesFromUtxo is observed through FetchingBalanceTick and the address of utxo's static record; P2PK scripts (compressed key forms 2..5) are not generated here (C10 covers them)",
@@ -1704,6 +1746,25 @@ func main() {
 			break
 		}
 		runNamed(fmt.Sprintf("static:min=%d,usemap=%d,compr=%d", c.mn, c.um, c.c), r.Seed*1000+uint64(3000+i), -1)
+	}
+	// reorganisations that come back to the same heights (spending and coinbase-only blocks mixed), config changes
+	// landing between two records of a running index build
+	extra := []string{"revisit:min=1000,usemap=3,compr=0", "revisit:min=0,usemap=5000,compr=1", "cfgrace:min=1000,usemap=4,compr=0", "cfgrace:min=100000,usemap=2,compr=1"}
+	if r.Thorough() {
+		for _, mn := range []uint64{0, 546, 100000} {
+			for _, um := range []uint32{0, 2, 5000} {
+				extra = append(extra, fmt.Sprintf("revisit:min=%d,usemap=%d,compr=%d", mn, um, um&1), fmt.Sprintf("cfgrace:min=%d,usemap=%d,compr=%d", mn, um, 1-um&1))
+			}
+		}
+	}
+	if os.Getenv("C17_ONLY") == "random" {
+		extra = nil
+	}
+	for i, name := range extra {
+		if nStop > 0 {
+			break
+		}
+		runNamed(name, r.Seed*1000+uint64(4000+i), -1)
 	}
 	n := r.N(10, 120)
 	for i := 0; i < n && nStop == 0; i++ {
